@@ -125,7 +125,7 @@ Theorem c16_predefined_permanent : forall ops,
   (forall f, get_value (st_pt s) 0 f = mkOut (RValue (0, 0)%Z) ENone 0) /\
   (forall f, get_value (st_pt s) 1 f = mkOut (RValue (64, 0)%Z) ENone 0) /\
   (forall f, get_value (st_pt s) 2 f = mkOut (RValue (-64, 0)%Z) ENone 0) /\
-  (forall h, (h < 3)%Z -> step s (ODeleteParam h) = (s, ok_int 0)).
+  (forall h, (0 <= h < 3)%Z -> step s (ODeleteParam h) = (s, ok_int 0)).
 Proof. exact predefined_permanent_l. Qed.
 Print Assumptions c16_predefined_permanent.
 
